@@ -44,8 +44,8 @@ from vf import rt
 
 SCEN = [c for c in rt.envstr("VF_SCEN", "start,stop").split(",") if c]
 NC = len(SCEN)
-END = 2
-TIMES = [1]
+END = rt.envint("VF_END", 2)
+TIMES = [int(x) for x in rt.envstr("VF_TIMES", "1").split(",") if x]
 VLO, VHI = rt.envint("VF_VLO", 0), rt.envint("VF_VHI", 45)     # range of v of the LAST command (earlier ones: 0..VHI)
 PMAX = rt.envint("VF_PMAX", 14)
 WMAX = rt.envint("VF_WMAX", 45)
@@ -53,6 +53,10 @@ FIXP = rt.envint("VF_FIXP", -1)                              # split: p of the l
 WSMALL = rt.envint("VF_WSMALL", 10 ** 6)                    # quick tier: the lead w is 0..WSMALL or "as far as it can go" (= WMAX)
 FIXARG = rt.envint("VF_ARG", -1)                            # bound of the bounded runs: symbolic 1..3 or fixed
 FIXWARM = rt.envint("VF_WARM", -1)                          # warm-up time: symbolic 0..2 or fixed
+STALLS = rt.envstr("VF_STALLS", "")                         # "010": while command #1 completes the run thread makes no progress
+VMID = rt.envint("VF_VMID", 0)                              # 1: the run thread's position before the command BEFORE the last is symbolic too
+VMIDHI = rt.envint("VF_VMIDHI", 48)
+MIDLO, MIDHI = rt.envint("VF_MIDLO", 0), rt.envint("VF_MIDHI", 48)
 NSYM = rt.envint("VF_NSYM", 1)                              # how many trailing commands have symbolic v, p, w
 HUGE = 10 ** 6
 
@@ -121,9 +125,11 @@ def _main_counts(mon):
     return (names.count("STARTING_EVENT"), names.count("STOPPING_EVENT"), names.count("START_REPLICATION_EVENT"))
 
 
-def oracle(sim, model, mon, results, args, warm, resume, thread_alive):
+def oracle(sim, model, mon, results, args, warm, resume, thread_alive, marks=None):
     """the quiescent oracle; `resume(sim)` issues start() at quiescence and waits for quiescence"""
     where = f"scenario {SCEN} args {args} -> {results}"
+    if marks is None:
+        marks = [(0, 0)] * NC
     for name, res in zip(SCEN, results):
         if res.startswith("other"):
             return rt.fail("C04:overlap-" + name + "-raised-" + res.split(":")[1], lambda: f"{where}: {res}")
@@ -141,7 +147,15 @@ def oracle(sim, model, mon, results, args, warm, resume, thread_alive):
     if ended_seen == 1:
         k = names.index("END_REPLICATION_EVENT")
         tail_names = names[k + 1:]
-        if tail_names and all(n == "STOPPING_EVENT" for n in tail_names) and len(tail_names) <= sum(
+        n_starts = sum(1 for n, r in zip(SCEN, results) if n in ("start", "runto", "runtoi") and r == "ok")
+        if tail_names and all(n == "STARTING_EVENT" for n in tail_names) and len(tail_names) <= max(0, n_starts - 1):
+            # the same window for a start()/bounded run admitted while the run thread is ending the replication
+            # (only reachable after a stop() that timed out on a stalled run thread): second recorded finding
+            if not rt.fail("C04:overlap-STARTING_EVENT-of-an-admitted-start-delivered-after-END_REPLICATION",
+                           lambda: f"{where}: stream {names}"):
+                return False
+            log = log[:k + 1]
+        elif tail_names and all(n == "STOPPING_EVENT" for n in tail_names) and len(tail_names) <= sum(
                 1 for n, r in zip(SCEN, results) if n == "stop" and r == "ok"):
             # a stop() that was admitted just before the natural end announces itself after END_REPLICATION:
             # one specific, recorded finding (see known_findings.json); anything else after END_REPLICATION is
@@ -156,8 +170,26 @@ def oracle(sim, model, mon, results, args, warm, resume, thread_alive):
     idx = [i for _, i in model.trace]
     if idx != list(range(len(idx))):
         return rt.fail("C04:overlap-events-lost-or-duplicated", lambda: f"{where}: trace {model.trace}")
+    acc_all = [(n, a) for n, a, r in zip(SCEN, args, results) if r == "ok"]
+    if acc_all and acc_all[-1][0] in ("runto", "runtoi"):
+        n, a = acc_all[-1]
+        # after the command's STARTING_EVENT the new bound is in place: the iteration of the run loop that is in
+        # flight may still execute ONE event beyond it (its decision was taken before), nothing more
+        ks = [k for k, (nm, _) in enumerate(mon.log) if nm == "STARTING_EVENT"]
+        if ks:
+            after = mon.log[ks[-1] + 1:]
+            beyond = [(nm, t) for nm, t in after if nm in ("exec", "WARMUP_EVENT")
+                      and (t > conv(a) or (n == "runto" and t == conv(a)))]
+            if len(beyond) > 1:
+                return rt.fail("C04:overlap-accepted-bounded-run-ran-beyond-its-bound",
+                               lambda: f"{where}: after its STARTING_EVENT {beyond} ran, bound {a}; stream {mon.log}")
     natural = "endrep" not in [n for n, r in zip(SCEN, results) if r == "ok"]
     if rs == RunState.ENDED:
+        acc = [(n, a) for n, a, r in zip(SCEN, args, results) if r == "ok"]
+        heading_to_end = any(n == "start" or (n in ("runto", "runtoi") and conv(a) >= conv(END)) for n, a in acc[:-1])
+        if acc and acc[-1][0] in ("runto", "runtoi") and conv(acc[-1][1]) < conv(END) and natural and not heading_to_end:
+            return rt.fail("C04:overlap-accepted-bounded-run-ended-the-replication",
+                           lambda: f"{where}: the last admitted command is a bounded run to {acc[-1][1]} < end {END}; stream {names}")
         if natural and len(idx) != len(TIMES):
             return rt.fail("C04:overlap-ended-without-running-all-events", lambda: f"{where}: trace {model.trace}")
         if thread_alive():
@@ -172,9 +204,9 @@ def oracle(sim, model, mon, results, args, warm, resume, thread_alive):
                 return rt.fail("C04:overlap-command-after-end-raised-" + type(e).__name__, lambda: where)
         return True
     # "takes effect": the last accepted command
-    accepted = [(n, a) for n, a, r in zip(SCEN, args, results) if r == "ok"]
+    accepted = [(n, a, c) for c, (n, a, r) in enumerate(zip(SCEN, args, results)) if r == "ok"]
     if accepted:
-        n, a = accepted[-1]
+        n, a, idx_last = accepted[-1]
         runs_to_end = n == "start" or (n in ("runto", "runtoi") and conv(a) > conv(END)) or (n == "runtoi" and conv(a) == conv(END))
         if runs_to_end:
             return rt.fail("C04:overlap-accepted-" + n + "-had-no-effect",
@@ -228,13 +260,15 @@ def seq_run(vs, ps, ws, args, warm):
         sim.add_listener(et, mon)
     del sched.order[:]
     results = []
+    marks = []
     for c, name in enumerate(SCEN):
         before = _main_counts(mon)
         sched.slice("W", vs[c])
+        marks.append((len(model.trace), len(mon.log)))
         sched.set_caller(_caller_prog(sim, name, args[c], results))
         sched.slice("C", ps[c])
         sched.slice("W", ws[c])
-        sched.finish_command()
+        sched.finish_command(stalled=(c < len(STALLS) and STALLS[c] == "1"))
         if len(results) == c + 1 and results[c] == "refused" and _main_counts(mon) != before:
             return rt.fail("C04:overlap-refused-" + name + "-notified", lambda: f"{SCEN} {results}: {before} -> {_main_counts(mon)}"), sched.order
     sched.tail()
@@ -251,7 +285,7 @@ def seq_run(vs, ps, ws, args, warm):
         if out and out[0] != "ok":
             raise DSOLError(out[0])
 
-    return oracle(sim, model, mon, results, args, warm, resume, lambda: not sched.worker_gone()), order
+    return oracle(sim, model, mon, results, args, warm, resume, lambda: not sched.worker_gone(), marks), order
 
 
 def overlap(vs, ps, ws, args, warm):
@@ -333,9 +367,11 @@ def replay_overlap(vs, ps, ws, args, warm):
         for et in ALL_TYPES:
             sim.add_listener(et, mon)
         results = []
+        rmarks = []
         sys.settrace(gr.tracer)
         try:
             for c, name in enumerate(SCEN):
+                rmarks.append((len(model.trace), len(mon.log)))
                 try:
                     _command_real(sim, name, args[c])
                     results.append("ok")
@@ -373,7 +409,7 @@ def replay_overlap(vs, ps, ws, args, warm):
         return any(t.name == "sim" and t.is_alive() for t in threading.enumerate())
 
     try:
-        return oracle(sim, model, mon, results, args, warm, resume, alive)
+        return oracle(sim, model, mon, results, args, warm, resume, alive, rmarks)
     finally:
         simmod.threading, simmod.time, simmod.sleep = saved
 
@@ -381,11 +417,12 @@ def replay_overlap(vs, ps, ws, args, warm):
 def h_overlap(vs: List[int], ps: List[int], ws: List[int], args: List[int], warm: int) -> bool:
     """
     pre: len(vs) == NC and len(ps) == NC and len(ws) == NC and len(args) == NC
-    pre: all(0 <= v <= VHI for v in vs) and VLO <= vs[NC - 1]
+    pre: all(0 <= vs[i] <= (VHI if (i != NC - 2 or VMID == 0) else VMIDHI) for i in range(NC)) and VLO <= vs[NC - 1]
     pre: all(0 <= p <= PMAX for p in ps) and (FIXP < 0 or ps[NC - 1] == FIXP)
     pre: all(0 <= w <= WMAX for w in ws)
     pre: all(w <= WSMALL or w == WMAX for w in ws)
-    pre: all(vs[i] == 0 and ps[i] == 0 and ws[i] == 0 for i in range(NC - NSYM))
+    pre: all((vs[i] == 0 or (VMID == 1 and i == NC - 2)) and ps[i] == 0 and ws[i] == 0 for i in range(NC - NSYM))
+    pre: VMID == 0 or NC < 2 or (MIDLO <= vs[NC - 2] <= MIDHI)
     pre: all(0 <= a <= 3 for a in args)
     pre: all((args[i] == 0) if SCEN[i] not in ("runto", "runtoi") else (1 <= args[i] and (FIXARG < 0 or args[i] == FIXARG)) for i in range(NC))
     pre: 0 <= warm <= 2 and (FIXWARM < 0 or warm == FIXWARM)
@@ -393,7 +430,7 @@ def h_overlap(vs: List[int], ps: List[int], ws: List[int], args: List[int], warm
     """
     if rt.MODE == "replay":
         return replay_overlap(vs, ps, ws, args, warm)
-    vs = [pick_int(v, 0, VHI) for v in vs]
+    vs = [pick_int(v, 0, max(VHI, VMIDHI if VMID else 0)) for v in vs]
     ps = [pick_int(p, 0, PMAX) for p in ps]
     ws = [pick_int(w, 0, WMAX) for w in ws]
     args = [pick_int(a, 0, 3) for a in args]
